@@ -514,6 +514,159 @@ func c01valid(c *Ctx) *c01tx {
 	return t
 }
 
+// c01wrapParts returns k >= 3 amounts, each <= 2^63-1, whose sum is congruent to w modulo 2^64
+// and whose TRUE sum is w + j*2^64 with j >= 1 (mode 0), or - mode 1 - k amounts whose true sum
+// lies in [2^63, 2^64) (crosses the int64 bound only).
+func c01wrapParts(c *Ctx, w uint64, mode int) []uint64 {
+	const m63 = uint64(1)<<63 - 1
+	big := func() uint64 {
+		switch c.Rng.Intn(5) {
+		case 0:
+			return m63
+		case 1:
+			return m63 - uint64(c.Rng.Intn(3))
+		case 2:
+			return 1 << 62
+		case 3:
+			return 1<<62 + uint64(c.Rng.Intn(1000))
+		default:
+			return c.Rng.Uint64() >> 1
+		}
+	}
+	if mode == 1 {
+		// true sum in [2^63, 2^64): two or three big parts, no uint64 wrap
+		parts := []uint64{1 << 62, 1 << 62, uint64(c.Rng.Intn(1000))}
+		if c.Rng.Intn(2) == 0 {
+			parts = []uint64{m63, uint64(1 + c.Rng.Intn(1000)), uint64(c.Rng.Intn(3))}
+		}
+		return parts
+	}
+	var parts []uint64
+	var sum uint64 // modulo 2^64
+	carries := 0
+	add := func(v uint64) {
+		if sum+v < sum {
+			carries++
+		}
+		sum += v
+		parts = append(parts, v)
+	}
+	for i, n := 0, 2+c.Rng.Intn(4); i < n; i++ {
+		add(big())
+	}
+	for {
+		last := w - sum // modulo 2^64
+		if last <= m63 {
+			if sum+last < sum {
+				carries++
+			}
+			parts = append(parts, last)
+			break
+		}
+		add(m63)
+	}
+	if carries == 0 {
+		// no wrap happened (tiny parts): force one full turn with two maximal parts and 2
+		parts = append(parts, m63, m63, 2)
+	}
+	c.Rng.Shuffle(len(parts), func(i, j int) { parts[i], parts[j] = parts[j], parts[i] })
+	return parts
+}
+
+// wrap-around multisets: one asset whose outputs (or inputs, or both) have a true total that
+// crosses 2^63 / 2^64 while the wrapped total matches the other side exactly.
+func c01wrap(c *Ctx) *c01tx {
+	t := &c01tx{bv: 1, bh: 100, ver: 1, label: "wrap"}
+	asset := 0
+	if c.Rng.Intn(3) != 0 {
+		asset = 1 + c.Rng.Intn(5)
+	}
+	side := c.Rng.Intn(4) // 0,1: outputs wrap; 2: inputs wrap; 3: both wrap
+	mode := 0
+	if c.Rng.Intn(5) == 0 {
+		mode = 1
+	}
+	fee := []uint64{1000000, 10000000, 60000000, 1000000000}[c.Rng.Intn(4)]
+	var w uint64
+	switch c.Rng.Intn(4) {
+	case 0:
+		w = uint64(10 + c.Rng.Intn(100))
+	case 1:
+		w = 100000000 + uint64(c.Rng.Intn(1000000))
+	case 2:
+		w = c.Rng.Uint64() >> uint(2+c.Rng.Intn(40))
+	default:
+		w = uint64(c.Rng.Intn(5000000))
+	}
+	id := 0
+	addIn := func(a int, v uint64) {
+		in := c01in{kind: 's', asset: a, amount: v, vmOk: true, argLen: 1 + c.Rng.Intn(4), id: id}
+		id++
+		switch c.Rng.Intn(5) {
+		case 0:
+			if a != 0 {
+				in.kind = 'i'
+			}
+		case 1:
+			in.kind, in.x = 'v', 64
+		}
+		t.ins = append(t.ins, in)
+	}
+	addOut := func(a int, v uint64) {
+		o := c01out{kind: 'o', asset: a, amount: v}
+		switch c.Rng.Intn(5) {
+		case 0:
+			o.kind = 'r'
+		case 1:
+			if a == 0 && v >= consensus.MinVoteOutputAmount {
+				o.kind, o.voteLen = 'v', 64
+			}
+		}
+		t.outs = append(t.outs, o)
+	}
+	// the wrapping asset: outputs total (mod 2^64) = w; inputs total (mod 2^64) = w (+ fee for BTM)
+	inTotal := w
+	if asset == 0 {
+		inTotal = w + fee
+	}
+	if side == 2 || side == 3 {
+		for _, v := range c01wrapParts(c, inTotal, mode) {
+			addIn(asset, v)
+		}
+	} else {
+		for _, v := range c01split(c, inTotal, 1+c.Rng.Intn(3)) {
+			addIn(asset, v)
+		}
+	}
+	if side != 2 {
+		for _, v := range c01wrapParts(c, w, mode) {
+			addOut(asset, v)
+		}
+	} else {
+		for _, v := range c01split(c, w, 1+c.Rng.Intn(3)) {
+			addOut(asset, v)
+		}
+	}
+	if asset != 0 {
+		// BTM for gas, balanced with an ample fee
+		change := uint64(c.Rng.Intn(1000000))
+		addIn(0, change+fee)
+		if change > 0 || c.Rng.Intn(2) == 0 {
+			addOut(0, change)
+		}
+	}
+	// sometimes a second, ordinary asset
+	if c.Rng.Intn(3) == 0 {
+		a2 := 6
+		v := uint64(c.Rng.Intn(100000))
+		addIn(a2, v)
+		addOut(a2, v)
+	}
+	c.Rng.Shuffle(len(t.ins), func(i, j int) { t.ins[i], t.ins[j] = t.ins[j], t.ins[i] })
+	c.Rng.Shuffle(len(t.outs), func(i, j int) { t.outs[i], t.outs[j] = t.outs[j], t.outs[i] })
+	return t
+}
+
 func c01coinbase(c *Ctx) *c01tx {
 	t := &c01tx{bv: 1, bh: 101, ver: 1, first: true, label: "coinbase"}
 	t.ins = []c01in{{kind: 'c', x: c.Rng.Intn(20), id: 0}}
@@ -702,7 +855,7 @@ func c01wild(c *Ctx) *c01tx {
 }
 
 func runC01(c *Ctx) {
-	c.Rule = "abstract transactions (1-12 inputs of kind spend/issuance/veto/coinbase, 0-12 outputs original/vote/retirement, <=6 assets incl. BTM, amounts from {0,1,small,2^31,2^62,2^63-1,2^63,2^64-1,random}) are turned into real types.TxData, mapped with MapTx and validated with validation.ValidateTx; 55% balanced-by-construction with a fee from a gas-relevant grid, 30% single-field mutations of those, 5% coinbase transactions, 10% unstructured; a case is distinct by its full abstract description"
+	c.Rule = "abstract transactions (1-12 inputs of kind spend/issuance/veto/coinbase, 0-12 outputs original/vote/retirement, <=6 assets incl. BTM, amounts from {0,1,small,2^31,2^62,2^63-1,2^63,2^64-1,random}) are turned into real types.TxData, mapped with MapTx and validated with validation.ValidateTx; 12% wrap-around multisets (k>=3 outputs and/or inputs of ONE asset, BTM or not, kinds original/vote/retirement and spend/issuance/veto mixed, every amount <= 2^63-1, whose TRUE sum crosses 2^63 or is 2^64*j + W while the other side totals exactly W, so that any unchecked uint64/int64 accumulation balances), 43% balanced-by-construction with a fee from a gas-relevant grid, 30% single-field mutations of those, 5% coinbase transactions, 10% unstructured; a case is distinct by its full abstract description"
 	replaying := c.Replay != ""
 	lines := c.CorpusLines()
 	if replaying {
@@ -721,6 +874,8 @@ func runC01(c *Ctx) {
 	for i := 0; i < c.N; i++ {
 		var t *c01tx
 		switch r := c.Rng.Intn(100); {
+		case r < 12:
+			t = c01wrap(c)
 		case r < 55:
 			t = c01valid(c)
 		case r < 85:
